@@ -129,7 +129,7 @@ CLAIMED['C08'] = dict(
     design='5 C08')
 
 CLAIMED['C20'] = dict(
-    text=BMC + 'C20 (partial, as designed): (a) get_kern_from_ekern is executed on SYMBOLIC text (with and without a pinned **ekern header line) against a character-loop specification; (b-e) file and command-line behaviour is realised at the I/O boundary on real temporary files, with solver-enumerated selectors: load(file) vs loads(text) by deep structural snapshot for LF / CRLF, with / without final newline, non-ASCII cells, str and Path; dump vs dumps for 5 option sets and 0-3 missing directory levels; kernpy.__main__.main() invoked in-process for --kern2ekern (single file, explicit output, directory, recursive; .krn / .kern; every order of three scores with 1 / 3 / 2 kern spines) and --ekern2kern (.ekrn / .ekern, recursive or not) compared with what the API produces, plus the ekern -> kern -> ekern round trip.',
+    text=BMC + 'C20 (partial, as designed): (a) get_kern_from_ekern is executed on SYMBOLIC text (with and without a pinned **ekern header line) against a character-loop specification; (b-e) file and command-line behaviour is realised at the I/O boundary on real temporary files, with solver-enumerated selectors: load(file) vs loads(text) by deep structural snapshot for LF / CRLF, with / without final newline, non-ASCII cells, str and Path; dump vs dumps for 5 option sets and 0-3 missing directory levels; the command line (python -m kernpy, a fresh interpreter per invocation) for --kern2ekern (single file, explicit output, directory, recursive, plus three kp.kern_to_ekern calls in one interpreter; .krn / .kern; every order of three scores with 1 / 3 / 2 kern spines) and --ekern2kern (.ekrn / .ekern, recursive or not) compared with what the API produces, plus the ekern -> kern -> ekern round trip.',
     note=NOTE + 'open()/csv on arbitrary bytes, locale-dependent default encodings, process spawning and permissions are out of reach of symbolic execution and outside the claim; the file tier is an enumeration of realised cases, labelled so.',
     technique='CrossHair-engine symbolic execution of get_kern_from_ekern on symbolic strings + z3-enumerated file / command-line scenarios realised at the I/O boundary and compared with the in-memory API',
     design='5 C20')
